@@ -183,7 +183,10 @@ def build():
     # one context (R=1), every loop unrolled U times: with a single thread there is nothing to interleave, the environment acts inside the hooks
     for fn in ['h_lock', 'h_rlock', 'h_trylock', 'h_rtrylock', 'h_unlock', 'h_runlock', 'h_unlock_nowake', 'h_mu_wait', 'h_cv_wait', 'h_mu_wait_w', 'h_mu_wait_r', 'h_cv_wait_w', 'h_cv_wait_r', 'h_debug', 'h_cv_signal', 'h_cv_debug']:
         for U in (2, 3):
-            sc = add('e2_%s_U%d' % (fn, U), 'e2_word.c', [fn], 1, E2U, excl=ONLY_MU, extra=E2X, pools={'extra_waiters': 0}, timeout=1800, unroll={'*': U, 'setup': 3, 'setup_cv': 3, 'rely_ok': 3, 'emit_word': 10, 'emit_waiters': 4},
+            ur = {'*': U, 'setup': 3, 'setup_cv': 3, 'rely_ok': 3, 'emit_word': 10, 'emit_waiters': 4}
+            if fn.startswith(('h_mu_wait', 'h_cv_wait')) and U == 2:
+                ur['nsync_mu_lock_slow_#0'] = 1      # the re-acquisition after the wait may queue and sleep once more only in the U=3 variants (cost)
+            sc = add('e2_%s_U%d' % (fn, U), 'e2_word.c', [fn], 1, E2U, excl=ONLY_MU, extra=E2X, pools={'extra_waiters': 0}, timeout=1800, unroll=ur,
                      defines=['VF_NO_DEADLOCK_CHECK'])
     # C14: the for(;;) of nsync_mu_lock_slow_ unrolled past LONG_WAIT_THRESHOLD (30) sleeps
     add('e2_h_lock_long_U33', 'e2_word.c', ['h_lock_long'], 1, E2U, excl=ONLY_MU, extra=E2X, pools={'extra_waiters': 0}, timeout=3000,
